@@ -86,3 +86,84 @@ pub proof fn lemma_flag_bits(more: bool, cmd: bool, long: bool)
   assert((0u8 & 2u8) == 0 && (1u8 & 2u8) == 0 && (2u8 & 2u8) != 0 && (3u8 & 2u8) != 0 && (4u8 & 2u8) == 0 && (5u8 & 2u8) == 0 && (6u8 & 2u8) != 0 && (7u8 & 2u8) != 0) by (bit_vector);
   assert((0u8 & 4u8) == 0 && (1u8 & 4u8) == 0 && (2u8 & 4u8) == 0 && (3u8 & 4u8) == 0 && (4u8 & 4u8) != 0 && (5u8 & 4u8) != 0 && (6u8 & 4u8) != 0 && (7u8 & 4u8) != 0) by (bit_vector);
 }
+
+// ---- batches of logical messages (FrameBatch) on the wire: frames in batch order, batches in slice order
+pub open spec fn enc_batches(bs: Seq<FrameBatch>) -> Seq<u8>
+  decreases bs.len()
+{
+  if bs.len() == 0 { Seq::<u8>::empty() } else { enc_batches(bs.drop_last()) + enc_all(bs.last()@) }
+}
+
+pub open spec fn wire_len(m: Msg) -> nat { if payload(m).len() <= 255 { 2 + payload(m).len() } else { 9 + payload(m).len() } }
+
+pub open spec fn wire_all(fs: Seq<Msg>) -> nat
+  decreases fs.len()
+{ if fs.len() == 0 { 0 } else { wire_all(fs.drop_last()) + wire_len(fs.last()) } }
+
+pub open spec fn wire_batches(bs: Seq<FrameBatch>) -> nat
+  decreases bs.len()
+{ if bs.len() == 0 { 0 } else { wire_batches(bs.drop_last()) + wire_all(bs.last()@) } }
+
+pub proof fn lemma_wire_all_prefix(fs: Seq<Msg>, k: int)
+  requires 0 <= k <= fs.len()
+  ensures wire_all(fs.take(k)) <= wire_all(fs)
+  decreases fs.len() - k
+{
+  if k == fs.len() { assert(fs.take(k) =~= fs); }
+  else {
+    lemma_wire_all_prefix(fs, k + 1);
+    assert(fs.take(k + 1).drop_last() =~= fs.take(k));
+  }
+}
+
+pub proof fn lemma_wire_batches_prefix(bs: Seq<FrameBatch>, k: int)
+  requires 0 <= k <= bs.len()
+  ensures wire_batches(bs.take(k)) <= wire_batches(bs)
+  decreases bs.len() - k
+{
+  if k == bs.len() { assert(bs.take(k) =~= bs); }
+  else {
+    lemma_wire_batches_prefix(bs, k + 1);
+    assert(bs.take(k + 1).drop_last() =~= bs.take(k));
+  }
+}
+
+pub proof fn lemma_bits_or()
+  ensures
+    0u8 | 1u8 == 1u8, 0u8 | 4u8 == 4u8, 1u8 | 4u8 == 5u8,
+    0u8 | 2u8 == 2u8, 1u8 | 2u8 == 3u8, 4u8 | 2u8 == 6u8, 5u8 | 2u8 == 7u8,
+{
+  assert(0u8 | 1u8 == 1u8 && 0u8 | 4u8 == 4u8 && 1u8 | 4u8 == 5u8 && 0u8 | 2u8 == 2u8 && 1u8 | 2u8 == 3u8 && 4u8 | 2u8 == 6u8 && 5u8 | 2u8 == 7u8) by (bit_vector);
+}
+
+pub proof fn lemma_enc_all_snoc(fs: Seq<Msg>, k: int)
+  requires 0 <= k < fs.len()
+  ensures enc_all(fs.take(k + 1)) == enc_all(fs.take(k)) + enc_msg(fs[k])
+{
+  assert(fs.take(k + 1).drop_last() =~= fs.take(k));
+  assert(fs.take(k + 1).last() == fs[k]);
+}
+
+pub proof fn lemma_enc_batches_snoc(bs: Seq<FrameBatch>, k: int)
+  requires 0 <= k < bs.len()
+  ensures enc_batches(bs.take(k + 1)) == enc_batches(bs.take(k)) + enc_all(bs[k]@)
+{
+  assert(bs.take(k + 1).drop_last() =~= bs.take(k));
+  assert(bs.take(k + 1).last() == bs[k]);
+}
+
+pub proof fn lemma_wire_all_snoc(fs: Seq<Msg>, k: int)
+  requires 0 <= k < fs.len()
+  ensures wire_all(fs.take(k + 1)) == wire_all(fs.take(k)) + wire_len(fs[k])
+{
+  assert(fs.take(k + 1).drop_last() =~= fs.take(k));
+  assert(fs.take(k + 1).last() == fs[k]);
+}
+
+pub proof fn lemma_wire_batches_snoc(bs: Seq<FrameBatch>, k: int)
+  requires 0 <= k < bs.len()
+  ensures wire_batches(bs.take(k + 1)) == wire_batches(bs.take(k)) + wire_all(bs[k]@)
+{
+  assert(bs.take(k + 1).drop_last() =~= bs.take(k));
+  assert(bs.take(k + 1).last() == bs[k]);
+}
